@@ -431,7 +431,12 @@ func Update(ctx context.Context, scope *ReferenceScope, query parser.UpdateQuery
 		}
 	}
 
+	// Several names of one table (a self-join) are edits of the same table: they are collected in the
+	// view of the name listed first, and the tables are published in the order they are listed.
 	viewsToUpdate := make(map[string]*View)
+	primaryRefs := make(map[string]string)
+	pathRefs := make(map[string]string)
+	viewRefs := make([]string, 0, len(query.Tables))
 	updatedCount := make(map[string]int)
 	for _, v := range query.Tables {
 		table := v.(parser.Table)
@@ -462,6 +467,16 @@ func Update(ctx context.Context, scope *ReferenceScope, query parser.UpdateQuery
 		}
 		if err = viewsToUpdate[viewKey].Header.Update(tableName.Literal, nil); err != nil {
 			return nil, nil, err
+		}
+		if _, ok := primaryRefs[viewKey]; !ok {
+			pathKey := strings.ToUpper(fpath)
+			if ref, ok := pathRefs[pathKey]; ok {
+				primaryRefs[viewKey] = ref
+			} else {
+				pathRefs[pathKey] = viewKey
+				primaryRefs[viewKey] = viewKey
+				viewRefs = append(viewRefs, viewKey)
+			}
 		}
 	}
 
@@ -502,24 +517,26 @@ func Update(ctx context.Context, scope *ReferenceScope, query parser.UpdateQuery
 			}
 
 			fieldIdx, _ := viewsToUpdate[viewref].Header.SearchIndex(uset.Field)
-			if _, ok := updatesList[viewref]; !ok {
-				updatesList[viewref] = make(map[int]*UintPool)
+			primary := primaryRefs[viewref]
+			if _, ok := updatesList[primary]; !ok {
+				updatesList[primary] = make(map[int]*UintPool)
 			}
-			if _, ok := updatesList[viewref][internalId]; !ok {
-				updatesList[viewref][internalId] = NewUintPool(setListLen, LimitToUseUintSlicePool)
-				updatedCount[viewref]++
+			if _, ok := updatesList[primary][internalId]; !ok {
+				updatesList[primary][internalId] = NewUintPool(setListLen, LimitToUseUintSlicePool)
+				updatedCount[primary]++
 			}
-			if updatesList[viewref][internalId].Exists(uint(fieldIdx)) {
+			if updatesList[primary][internalId].Exists(uint(fieldIdx)) {
 				return nil, nil, NewUpdateValueAmbiguousError(uset.Field, uset.Value)
 			}
-			updatesList[viewref][internalId].Add(uint(fieldIdx))
-			viewsToUpdate[viewref].RecordSet[internalId][fieldIdx] = NewCell(val)
+			updatesList[primary][internalId].Add(uint(fieldIdx))
+			viewsToUpdate[primary].RecordSet[internalId][fieldIdx] = NewCell(val)
 		}
 	}
 
 	fileInfos := make([]*FileInfo, 0)
 	updateRecords := make([]int, 0)
-	for k, v := range viewsToUpdate {
+	for _, k := range viewRefs {
+		v := viewsToUpdate[k]
 		if err = v.RestoreHeaderReferences(); err != nil {
 			return nil, nil, err
 		}
@@ -624,7 +641,12 @@ func Delete(ctx context.Context, scope *ReferenceScope, query parser.DeleteQuery
 		}
 	}
 
+	// Several names of one table (a self-join) delete from the same table: the records are collected
+	// under the name listed first, and the tables are published in the order they are listed.
 	viewsToDelete := make(map[string]*View)
+	primaryRefs := make(map[string]string)
+	pathRefs := make(map[string]string)
+	viewRefs := make([]string, 0, len(query.Tables))
 	deletedIndices := make(map[string]map[int]bool)
 	for _, v := range query.Tables {
 		table := v.(parser.Table)
@@ -656,7 +678,17 @@ func Delete(ctx context.Context, scope *ReferenceScope, query parser.DeleteQuery
 		if err = viewsToDelete[viewKey].Header.Update(tableName.Literal, nil); err != nil {
 			return nil, nil, err
 		}
-		deletedIndices[viewKey] = make(map[int]bool)
+		if _, ok := primaryRefs[viewKey]; !ok {
+			pathKey := strings.ToUpper(fpath)
+			if ref, ok := pathRefs[pathKey]; ok {
+				primaryRefs[viewKey] = ref
+			} else {
+				pathRefs[pathKey] = viewKey
+				primaryRefs[viewKey] = viewKey
+				viewRefs = append(viewRefs, viewKey)
+				deletedIndices[viewKey] = make(map[int]bool)
+			}
+		}
 	}
 
 	for i := range view.RecordSet {
@@ -669,15 +701,16 @@ func Delete(ctx context.Context, scope *ReferenceScope, query parser.DeleteQuery
 			if err != nil {
 				continue
 			}
-			if !deletedIndices[viewref][internalId] {
-				deletedIndices[viewref][internalId] = true
+			if primary := primaryRefs[viewref]; !deletedIndices[primary][internalId] {
+				deletedIndices[primary][internalId] = true
 			}
 		}
 	}
 
 	// All tables are prepared before the first one is published, so that an interruption or an error
 	// does not leave some of them changed.
-	for k, v := range viewsToDelete {
+	for _, k := range viewRefs {
+		v := viewsToDelete[k]
 		if ctx.Err() != nil {
 			return nil, nil, ConvertContextError(ctx.Err())
 		}
@@ -697,7 +730,8 @@ func Delete(ctx context.Context, scope *ReferenceScope, query parser.DeleteQuery
 
 	fileInfos := make([]*FileInfo, 0)
 	deletedCounts := make([]int, 0)
-	for k, v := range viewsToDelete {
+	for _, k := range viewRefs {
+		v := viewsToDelete[k]
 		if v.FileInfo.IsInMemoryTable() {
 			scope.ReplaceTemporaryTable(v)
 		} else if v.FileInfo.IsFile() {
